@@ -205,8 +205,10 @@ def check(ctx, case):
         if r["rep"] is not None:
             raise Violation("a copy carries a repetition", case, None, r["rep"], lines)
         hit = None
+        rr = strip(r, kind, (0, 0))
         for i, o in enumerate(rest):
-            if same_struct(strip(r, kind, o), base, 1e-12):
+            # translate the original forward (comparing at the copy's magnitude keeps the tolerance relative)
+            if same_struct(rr, strip(before, kind, (-o[0], -o[1])), 1e-12):
                 hit = i
                 break
         if hit is None:
